@@ -194,6 +194,9 @@ def _decompress(
     dcomped += dcomp.flush()
     if len(dcomped) > max_size:
         raise zlib.error("decompressed data exceeds maximum size")
+    if not dcomp.eof:
+        # decompressobj hands out what it has of a stream that was cut short
+        raise zlib.error("incomplete or truncated stream")
     return dcomped
 
 
@@ -545,6 +548,15 @@ class ShaFile:
         header_end = text.find(b"\0")
         if header_end < 0:
             raise ObjectFormatException("Invalid object header, no \\0")
+        try:
+            size = int(text[:header_end].split(b" ", 1)[1])
+        except (IndexError, ValueError) as exc:
+            raise ObjectFormatException(f"Object size not an integer: {exc}") from exc
+        if size != len(text) - header_end - 1:
+            raise ObjectFormatException(
+                f"Object is {len(text) - header_end - 1} bytes long, "
+                f"its header says {size}"
+            )
         self.set_raw_string(text[header_end + 1 :])
 
     def as_legacy_object_chunks(self, compression_level: int = -1) -> Iterator[bytes]:
